@@ -2520,7 +2520,7 @@ func (f *VFSFile) pollReplicaClient(ctx context.Context) error {
 	newCommit := baseCommit
 	replaceIndex := false
 
-	maxTXID0, idx0, commit0, replace0, err := f.pollLevel(ctx, 0, pos.TXID, baseCommit, 0)
+	maxTXID0, idx0, commit0, replace0, err := f.pollLevel(ctx, 0, pos.TXID, baseCommit, 0, nil)
 	if err != nil {
 		return fmt.Errorf("poll L0: %w", err)
 	}
@@ -2546,7 +2546,14 @@ func (f *VFSFile) pollReplicaClient(ctx context.Context) error {
 	// that ends at or before the level-0 position repeats transactions that
 	// are already applied: its pages are older than the level-0 pages merged
 	// above and its commit says nothing about the current database size.
-	maxTXID1, idx1, commit1, replace1, err := f.pollLevel(ctx, 1, maxTXID1Snapshot, baseCommit, maxTXID0)
+	//
+	// Such a file still matters in one way: level-0 files are retired once
+	// they are compacted, so pages that are served from them have to move over
+	// to the compacted copy. covered1 collects the entries of those files;
+	// below they replace an index entry only when that entry is not newer than
+	// the compacted file, i.e. when both denote the same version of the page.
+	covered1 := make(map[uint32]ltx.PageIndexElem)
+	maxTXID1, idx1, commit1, replace1, err := f.pollLevel(ctx, 1, maxTXID1Snapshot, baseCommit, maxTXID0, covered1)
 	if err != nil {
 		return fmt.Errorf("poll L1: %w", err)
 	}
@@ -2606,6 +2613,20 @@ func (f *VFSFile) pollReplicaClient(ctx context.Context) error {
 		}
 	}
 
+	// Re-point pages to covered level-1 files (same bytes, no cache
+	// invalidation). With a reader active the current entry is the parked one
+	// or, unless the parked set replaces the index, the one in the main index.
+	for k, v := range covered1 {
+		cur, ok := target[k]
+		if !ok && !targetIsMain && !f.pendingReplace {
+			cur, ok = f.index[k]
+		}
+		if !ok || cur.MaxTXID > v.MaxTXID || cur == v {
+			continue
+		}
+		target[k] = v
+	}
+
 	if invalidateN > 0 {
 		f.logger.Debug("cache invalidated pages due to new ltx files", "count", invalidateN)
 	}
@@ -2639,7 +2660,8 @@ func (f *VFSFile) pollReplicaClient(ctx context.Context) error {
 // any index updates, the latest commit value, and if the index should be replaced.
 // Files whose MaxTXID does not exceed coveredTXID advance the returned TXID but
 // contribute neither pages nor a commit value.
-func (f *VFSFile) pollLevel(ctx context.Context, level int, prevMaxTXID ltx.TXID, baseCommit uint32, coveredTXID ltx.TXID) (ltx.TXID, map[uint32]ltx.PageIndexElem, uint32, bool, error) {
+// If covered is not nil it receives their page entries.
+func (f *VFSFile) pollLevel(ctx context.Context, level int, prevMaxTXID ltx.TXID, baseCommit uint32, coveredTXID ltx.TXID, covered map[uint32]ltx.PageIndexElem) (ltx.TXID, map[uint32]ltx.PageIndexElem, uint32, bool, error) {
 	itr, err := f.client.LTXFiles(ctx, level, prevMaxTXID+1, false)
 	if err != nil {
 		return prevMaxTXID, nil, baseCommit, false, fmt.Errorf("ltx files: %w", err)
@@ -2667,6 +2689,15 @@ func (f *VFSFile) pollLevel(ctx context.Context, level int, prevMaxTXID ltx.TXID
 		}
 
 		if info.MaxTXID <= coveredTXID {
+			if covered != nil {
+				idx, err := FetchPageIndex(ctx, f.client, info)
+				if err != nil {
+					return maxTXID, nil, newCommit, replaceIndex, fmt.Errorf("fetch page index: %w", err)
+				}
+				for k, v := range idx {
+					covered[k] = v
+				}
+			}
 			maxTXID = info.MaxTXID
 			continue
 		}
